@@ -120,7 +120,7 @@ def same(got, exp):
             if not _num_eq(got[lab], exp[lab]):
                 return "at %r: %r vs %r" % (lab, got[lab], exp[lab])
         return None
-    if isinstance(got, (pd.Series, pd.DataFrame)):
+    if isinstance(got, (pd.Series, pd.DataFrame, tuple, list, dict, set, np.ndarray)):
         return "type %s instead of scalar" % type(got).__name__
     if not _num_eq(got, exp):
         return "%r vs %r" % (got, exp)
